@@ -282,8 +282,9 @@ AUDIT = [
     ("ZervSchemaPreset::schema:call:panic#0", "wildcard arm only covers variants handled by schema_with_zerv", q_preset_coverage),
     ("ZervSchemaPreset::with_build_context:call:unwrap#0", "set_build on schemas that are constants of the program", q_callers_constant("ZervSchemaPreset::with_build_context", 1)),
     ("PEP440>::add_flattened_to_local:call:unwrap#0", "segments of a sanitised value contain no '.'", q_local_sanitized),
-    ("pep440::parser::parse_local_segments::{closure#0}:call:unwrap#0", "segments come from the regex's local group", q_local_from_regex),
-    ("pep440::parser::parse_local_segments::{closure#0}::{closure#1}:call:unwrap#0", "segments come from the regex's local group", q_local_from_regex),
+    # matched by what the site is (unwrap of a LocalSegment::try_new_str result anywhere in the PEP 440 parser module), not by where it lives
+    (lambda s: s.kind == "call:unwrap" and s.fn.path.startswith("crate::version::pep440::parser::") and any(o.kind == "call" and (mir.callee(o.fn.blocks[o.data]["t"]) or "").endswith("LocalSegment::try_new_str") for o in mir.trace_op(s.fn, s.detail[2][0], transparent=())),
+     "segments come from the regex's local group", q_local_from_regex),
     ("From<version::pep440::core::PEP440> for version::zerv::core::Zerv>::from:call:expect#1", "conversion only pushes literal components", q_pushes_literals),
     ("From<version::semver::core::SemVer> for version::zerv::core::Zerv>::from:call:expect#1", "duplicate secondary labels are diverted before a Var is pushed", q_semver_dup_guard),
     ("PreReleaseProcessor::<'a>::handle_duplicate:call:unwrap#0", "take() of an Option just compared equal to Some", q_guard_pending),
@@ -338,7 +339,7 @@ def check(F, rep, tier):
             n_der += 1
             rep.ok("R13.1", "%s: derive-generated function whose only direct callers are derive-generated too (driven by the deriving crate's own machinery)" % key, nontrivial_key=key)
             continue
-        ent = [a for a in AUDIT if key.endswith(a[0])]
+        ent = [a for a in AUDIT if (a[0](s) if callable(a[0]) else key.endswith(a[0]))]
         if ent:
             a = ent[0]
             if a[2] not in audit_cache:
@@ -411,6 +412,11 @@ def stdout_rules(F, rep, cg, root, rwa, reach):
             return out
         srcs = payload_sources(t[2][1])
         site = "%s bb%d line %s" % (rwa.where(), bi, rwa.blocks[bi]["line"])
+        # nothing may be written while a fallible pipeline step is still ahead: its failure would leave text on stdout
+        later = sorted(pipes[pb2].rsplit("::", 1)[-1] for pb2 in pipes if pb2 in mir.reachable(rwa, bi) and pb2 != bi and pb2 not in srcs)
+        if later:
+            rep.bad("R13.3", "write-before-fallible:" + ",".join(later), "output is written before %s runs: if that step fails, stdout is not empty on failure" % later, site)
+            continue
         if len(srcs) == 1:
             pb = next(iter(srcs))
             # success edge: a Try::branch on the pipeline result whose Continue arm dominates the write
